@@ -74,6 +74,14 @@ func hasCatch(n *Node) bool {
 
 // catcherIssue: would issue `is` be one the catching node itself produces?
 func catcherOwnIssue(n *Node, is Iss, catchPaths map[string]*Node) bool {
+	// a test declared with IssuePath files its issue under that path, wherever the node is
+	for _, c := range catchPaths {
+		for _, t := range c.Tests {
+			if t.Path != "" && t.Path == is.Path && t.Code == is.Code && is.Dtype == c.DType() {
+				return true
+			}
+		}
+	}
 	c, ok := catchPaths[is.Path]
 	if !ok {
 		return false
@@ -245,7 +253,7 @@ func c05Scenario(a *Alpha, ns NamedSkel, focus []string, elems int) mc.Scenario 
 func init() {
 	Register(&Prop{
 		ID:    "C05",
-		Rule:  "one execution = one core case containing ≥1 catching primitive, run twice on the real code (as is; every Catch removed) plus the node-local reference model; string nodes carry the built-in tests Max(5) and the negated Not().Contains(\"2\"); enumeration as C02 (≤k focus units over full alphabets incl. catcher inputs {ok, missing+required, uncoercible, fails t1, fails both}, all visit orders, both modes); every counted case is non-trivial; distinct = distinct (skeleton, mode, issues with catch, issues without catch)",
+		Rule:  "one execution = one core case containing ≥1 catching primitive, run twice on the real code (as is; every Catch removed) plus the node-local reference model; string nodes carry the built-in tests Max(5) and the negated Not().Contains(\"2\"); the built-in test t1 of every node is declared with IssuePath(alias@node); enumeration as C02 (≤k focus units over full alphabets incl. catcher inputs {ok, missing+required, uncoercible, fails t1, fails both}, all visit orders, both modes); every counted case is non-trivial; distinct = distinct (skeleton, mode, issues with catch, issues without catch)",
 		Floor: 50,
 		Bound: func(tier string) string {
 			k, e := coreK(tier)
@@ -256,7 +264,7 @@ func init() {
 			"PostTransforms are not part of this space",
 		},
 		Items: func(tier string) []Item {
-			return coreItems(tier, c05Scenario, func(a *Alpha) { a.NegStr = true }, []int{0, 1}, 0)
+			return coreItems(tier, c05Scenario, func(a *Alpha) { a.NegStr = true; a.PathT1 = true }, []int{0, 1}, 0)
 		},
 	})
 }
